@@ -331,3 +331,9 @@ package variants
 //@   before return#6: assert [c14.gb.fields] r.Name == f.Info["gene"] && r.Translation == f.Info["translation"] + "*" && r.Strand == ite(reverse, -1, 1) && r.Whichtype == "protein-coding"
 //@   before return#6: assert [c14.gb.bounds] forall(k, 0, len(r.Positions), r.Start <= r.Positions[k] && r.Positions[k] <= r.Stop)
 //@   ensures [err.gene] implies(!in(f.Info, "gene") || !in(f.Info, "codon_start"), result2 != nil)
+
+//@ # C12 on RegionsFromGFF: the regions are built without ranging over a map or any other source of nondeterminism
+//@ # (obligation `deterministic`, syntactic; F8). Its grouping by ID (a map of slices that are appended to) is not under
+//@ # a functional contract: the coverage statement of C04 for it (F9) is checked bounded by oracle variants_regionsfromgff.
+//@ func RegionsFromGFF deterministic
+//@   modifies everything
